@@ -5,6 +5,7 @@ import (
 	"fmt"
 	"time"
 
+	"github.com/fxamacker/cbor/v2"
 	cose "github.com/veraison/go-cose"
 
 	"verif/refcbor"
@@ -234,6 +235,26 @@ func c08Buckets(r *Run, t *tape.Tape, sp Spelling, maxExtra int) {
 		}
 	} else {
 		r.Outcome("unprotected-refused")
+	}
+	// empty-but-not-nil raw buckets (what `append(cbor.RawMessage{}, src...)`
+	// gives for a message built in memory, or a store that returns empty
+	// blobs): "no retained raw bytes", exactly like nil
+	if broken == "" {
+		h0 := cose.Headers{Protected: h.Protected, Unprotected: h.Unprotected}
+		h1 := h0
+		h1.RawProtected, h1.RawUnprotected = cbor.RawMessage{}, cbor.RawMessage{}
+		var p0, p1, u0, u1 []byte
+		var ep0, ep1, eu0, eu1 error
+		r.Lib(func() { p0, ep0 = h0.MarshalProtected() })
+		r.Lib(func() { p1, ep1 = h1.MarshalProtected() })
+		r.Lib(func() { u0, eu0 = h0.MarshalUnprotected() })
+		r.Lib(func() { u1, eu1 = h1.MarshalUnprotected() })
+		r.Check()
+		if (ep0 == nil) != (ep1 == nil) || !bytes.Equal(p0, p1) || (eu0 == nil) != (eu1 == nil) || !bytes.Equal(u0, u1) {
+			r.Fail("empty-raw-bucket-not-treated-as-absent", "Headers with zero-length (non-nil) RawProtected/RawUnprotected encode differently from the same Headers with nil raw buckets\nprotected: %x (%v) vs %x (%v)\nunprotected: %x (%v) vs %x (%v)", p1, ep1, p0, ep0, u1, eu1, u0, eu0)
+			return
+		}
+		r.Probe("empty-raw-buckets-compared")
 	}
 }
 
